@@ -1410,7 +1410,7 @@ func c19CheckRows(c *Ctx, w *tWorld, rowData []byte, viol func(sig, what string)
 		if err != nil || !ok {
 			return
 		}
-		id, has := rowID(rb)
+		id, has := tRowID(rb)
 		if !has || !bytes.Equal(w.json[id], rb) {
 			viol("c19-row-never-written", fmt.Sprintf("the helpers returned a row that was never written: %q", rb))
 			return
@@ -1489,7 +1489,7 @@ func c19SectionSwap(c *Ctx) {
 			rd, err := bs.ReadDataBlockRowData(bytes.NewReader(files[a.f].data), &ba)
 			must(err)
 			first, _, _ := bs.NewBlockRowScanner(rd).Next()
-			id, _ := rowID(first)
+			id, _ := tRowID(first)
 			q := bs.NewQuery().Token(fmt.Sprintf("u%04d", id)).Build()
 			good, _, _ := collect(w.eng, q)
 			queries := []*bs.Query{nil, q}
